@@ -6,6 +6,7 @@ mod reg;
 mod run_desc;
 mod run_gen;
 mod run_misc;
+mod run_t3;
 mod settings;
 
 use serde_json::{json, Value};
@@ -232,6 +233,13 @@ fn main() {
             }
         }
         "once" => run_gen::once_main(),
+        "emit" => {
+            panic::set_hook(Box::new(|info| {
+                let msg = info.to_string();
+                LAST_PANIC.with(|p| *p.borrow_mut() = msg);
+            }));
+            run_t3::emit(&args[2], &args[3], &args[4], args[5].parse().unwrap_or(2))
+        }
         "corpus" => run_misc::corpus(&args[2]),
         "polkadot" => run_misc::polkadot(
             &args[2],
